@@ -6,6 +6,7 @@ package checks
 // lock level read from the kernel's lock table) every read operation runs.
 
 import (
+	"database/sql"
 	"fmt"
 	"os"
 	"path/filepath"
@@ -150,7 +151,7 @@ func c07Scenarios(thorough bool) []c07Scenario {
 }
 
 func runC07(r *ev.Run) {
-	r.Rule = "writer scripts of a real SQLite connection in another process (small commit, two transactions back to back with synchronous FULL and OFF, rollback, spilling bulk insert with cache_size=1, a schema change spilled with a multi-page sqlite_master and then rolled back, commit blocked by a third reader = PENDING, locking_mode=EXCLUSIVE), journal modes DELETE (+TRUNCATE, PERSIST thorough), parked after EVERY statement; the table scanned by the long-lived handles spans more pages than the handle's page cache holds (so its older cache generation is in use); in every parked state every read operation (all low level and high level calls, the driver) runs on a fresh handle and on a long-lived handle; in addition one long-lived handle per SUBSET of the steps reads (Select on both tables, IndexedSelect) only at the steps of its subset and starting with each of the three operations in turn, so every read schedule of a long-lived handle is covered; a spilling writer on a database file without write permission bits; a script that commits schema changes (new table, a table and an index rebuilt under their old names with other content); and one handle OPENED in every parked state, read at every later step; the writer's lock level is read from /proc/locks; oracle: PENDING or EXCLUSIVE => error and zero rows; RESERVED/SHARED/UNLOCKED => success and exactly the last committed content (dumped by a separate SQLite reader). second family (mid-read): a Select / IndexedSelect parked in its row callback, on a fresh handle and on a handle opened before another process grew the file threefold; the writer (one page cache: it wants to spill) begins and updates every row at row j and tries COMMIT or ROLLBACK at row k, for every j <= k (and, for a third of them, with a select-like call made from the first row's callback on the same handle): no row of the unfinished transaction is delivered, the result equals the state committed when the read started, the writer never holds EXCLUSIVE and never commits while the read is in progress, and can finish after it returned. non-trivial = states in which the writer holds RESERVED or more"
+	r.Rule = "writer scripts of a real SQLite connection in another process (small commit, two transactions back to back with synchronous FULL and OFF, rollback, spilling bulk insert with cache_size=1, a schema change spilled with a multi-page sqlite_master and then rolled back, commit blocked by a third reader = PENDING, locking_mode=EXCLUSIVE), journal modes DELETE (+TRUNCATE, PERSIST thorough), parked after EVERY statement; the table scanned by the long-lived handles spans more pages than the handle's page cache holds (so its older cache generation is in use); in every parked state every read operation (all low level and high level calls, the driver) runs on a fresh handle and on a long-lived handle; in addition one long-lived handle per SUBSET of the steps reads (Select on both tables, IndexedSelect) only at the steps of its subset and starting with each of the three operations in turn, so every read schedule of a long-lived handle is covered; a spilling writer on a database file without write permission bits; a script that commits schema changes (new table, a table and an index rebuilt under their old names with other content); and one handle OPENED in every parked state, read at every later step; and one database/sql prepared statement per step, executed for the first time at that step and at every later one; the writer's lock level is read from /proc/locks; oracle: PENDING or EXCLUSIVE => error and zero rows; RESERVED/SHARED/UNLOCKED => success and exactly the last committed content (dumped by a separate SQLite reader). second family (mid-read): a Select / IndexedSelect parked in its row callback, on a fresh handle and on a handle opened before another process grew the file threefold; the writer (one page cache: it wants to spill) begins and updates every row at row j and tries COMMIT or ROLLBACK at row k, for every j <= k (and, for a third of them, with a select-like call made from the first row's callback on the same handle): no row of the unfinished transaction is delivered, the result equals the state committed when the read started, the writer never holds EXCLUSIVE and never commits while the read is in progress, and can finish after it returned. non-trivial = states in which the writer holds RESERVED or more"
 	defer c07MidRead(r)
 	dir := ev.TmpDir("c07")
 	defer os.RemoveAll(dir)
@@ -217,6 +218,22 @@ func runC07(r *ev.Run) {
 				subset[mask] = le
 			}
 		}
+		// one prepared statement per step (see below)
+		var prepared []*sql.Stmt
+		if pool, err := sql.Open("sqlittle", path); err == nil {
+			defer pool.Close()
+			if len(sc.steps) <= 8 {
+				for range sc.steps {
+					st, err := pool.Prepare("SELECT id, v FROM t")
+					if err != nil {
+						r.Harness("prepare: %v", err)
+						return
+					}
+					defer st.Close()
+					prepared = append(prepared, st)
+				}
+			}
+		}
 		openedAt := map[int]*Env{}
 		openedLevel := map[int]string{}
 		for k, st := range sc.steps {
@@ -249,6 +266,48 @@ func runC07(r *ev.Run) {
 				}
 			}
 			mustFail := level == "PENDING" || level == "EXCLUSIVE"
+			// prepared statements of the database/sql driver: statement f is prepared before the writer starts and
+			// executed for the first time at step f, then at every later step - whatever its earlier executions met
+			// (a refusal, a spilled transaction) must not stick to it
+			if prepared != nil {
+				di := -1
+				for oi, op := range ops {
+					if op.Name == "Driver(t)" {
+						di = oi
+					}
+				}
+				for f := 0; f <= k && f < len(prepared) && di >= 0; f++ {
+					var got [][]interface{}
+					rows, qerr := prepared[f].Query()
+					if qerr == nil {
+						for rows.Next() {
+							var a, b interface{}
+							if qerr = rows.Scan(&a, &b); qerr != nil {
+								break
+							}
+							got = append(got, []interface{}{a, b})
+						}
+						if qerr == nil {
+							qerr = rows.Err()
+						}
+						rows.Close()
+					}
+					r.Eval(1)
+					r.Trans(1)
+					a2 := map[string]interface{}{"op": "prepared SELECT id, v FROM t", "handle": "a database/sql prepared statement", "first_executed_at_step": f}
+					for kk, v := range art {
+						a2[kk] = v
+					}
+					switch {
+					case mustFail && (qerr == nil || len(got) > 0):
+						r.Violation("C07:read-under-"+strings.ToLower(level)+":PreparedStatement", fmt.Sprintf("a prepared statement (first executed at step %d) while the writer holds %s: err=%v, %d rows", f, level, qerr, len(got)), a2)
+					case !mustFail && qerr != nil:
+						r.Violation("C07:refused-under-"+strings.ToLower(level)+":PreparedStatement", fmt.Sprintf("a prepared statement (first executed at step %d) fails (%v) although the writer holds only %s", f, qerr, level), a2)
+					case !mustFail && !RowsEq(got, committed[di].Rows, false):
+						r.Violation("C07:stale-or-uncommitted:PreparedStatement", fmt.Sprintf("a prepared statement (first executed at step %d), now at step %d with the writer %s: %d rows, the last committed state has %d: %s", f, k, level, len(got), len(committed[di].Rows), firstDiffSafe(got, committed[di].Rows)), a2)
+					}
+				}
+			}
 			// handles OPENED in an earlier writer state (whatever Open saw then) and not used since: their first and
 			// every later read must obey the same rules
 			for ok, le := range openedAt {
